@@ -415,6 +415,15 @@ func (e *Env) ident(x *SExpr) Val {
 			return v
 		}
 	}
+	if name == "world" {
+		// the one object that carries process-wide ghost state (e.g. the clock)
+		e.fg.declare("$world", "Int")
+		if !e.fg.declSet["ax.world"] {
+			e.fg.declSet["ax.world"] = true
+			e.fg.decls = append(e.fg.decls, "(assert (> $world 0))")
+		}
+		return Val{T: "$world", Sort: "Int"}
+	}
 	if c, ok := e.fg.g.ct.Consts[name]; ok {
 		ce, err := parseSpec(c)
 		if err != nil {
